@@ -1,5 +1,6 @@
 import H3.Drv.Util
 import H3.Drv.C16
+import H3.Drv.C18
 open H3.Drv
 
 def dispatch (ws : List String) : String :=
@@ -7,6 +8,7 @@ def dispatch (ws : List String) : String :=
   | [] => "bad-op"
   | e :: _ =>
     if e == "varint" || e == "sid" then H3.Drv.C16.handle ws
+    else if e == "dgram" then H3.Drv.C18.handle ws
     else "bad-op"
 
 partial def loop (h : IO.FS.Stream) (out : IO.FS.Stream) : IO Unit := do
